@@ -144,25 +144,40 @@ theorem C04_string_id62_pattern_counterexample :
 /-- `reader-error:key[kf=cus,id62-pattern,lr]` -/
 theorem C04_custom_id62_key_lr_counterexample :
     (roundtrip { name := "k", number := 2,
-                 schema := .single (.key (some (.custom id62Pattern)) none (some "f1/df/s0/ds0/q0/qi-")) }).isErr = true := by
+                 schema := .single (.key (some (.custom id62Pattern)) none (some { text := "f1/df/s0/ds0/q0/qi-" })) }).isErr = true := by
   decide
 
 /-! ## non-vacuity -/
 
 example : WFField {
     name := "i", number := 2, required := true, description := "count",
-    schema := .single (.integer .u32 (some { minimum := some 1, maximum := some 10, exclusiveMaximum := some false }) (some "f1/df/s1/ds0/q0/qi-")) } = true := by
+    schema := .single (.integer .u32 (some { minimum := some 1, maximum := some 10, exclusiveMaximum := some false }) (some { text := "f1/df/s1/ds0/q0/qi-" })) } = true := by
   decide
 
 example : WFField {
     name := "k", number := 3,
-    schema := .single (.key (some (.custom "^x$")) (some { typ := .foreign "foo.v1.thing", tenantKey := some "t" }) (some "f1/df/s0/ds0/q0/qi-")) } = true := by
+    schema := .single (.key (some (.custom "^x$")) (some { typ := .foreign "foo.v1.thing", tenantKey := some "t" }) (some { text := "f1/df/s0/ds0/q0/qi-" })) } = true := by
   decide
 
 example : WFField {
     name := "e", number := 4,
     schema := .array (.enum { name := "En", defaultPrefix := "EN_", options := ["A", "B", "C"] }
                 (some { inn := ["A", "EN_B"], notIn := ["C"] }) none) (some { minItems := some 1, uniqueItems := some true }) none } = true := by
+  decide
+
+/-- list rules of an enum field with default filters naming options (with and without prefix) -/
+example : WFField {
+    name := "e", number := 4,
+    schema := .single (.enum { name := "En", defaultPrefix := "EN_", options := ["A", "B", "C"] } none
+                (some { text := "f1/df41+454e5f42/s0/ds0/q0/qi-", defaultFilters := ["A", "EN_B"] })) } = true := by
+  decide
+
+/-- ... and the inadmissible neighbour: a default filter that is no option of the enum does not
+compile (b6c593a), so there is nothing to read back -/
+example : (roundtrip {
+    name := "e", number := 4,
+    schema := .single (.enum { name := "En", defaultPrefix := "EN_", options := ["A", "B", "C"] } none
+                (some { text := "f1/df61/s0/ds0/q0/qi-", defaultFilters := ["a"] })) }).isErr = true := by
   decide
 
 /-- the normal form is not the identity: e.g. `exclusiveMaximum = false` disappears -/
